@@ -30,8 +30,8 @@ structure ABuf where
 
 namespace ABuf
 def len (b : ABuf) : Nat := b.bytes.length
-/-- Blocks the buffer owns. -/
-def owned (b : ABuf) : List Nat := b.hdr :: b.dataId.toList
+/-- Blocks the buffer owns (a static buffer only its struct: `data` aliases foreign bytes). -/
+def owned (b : ABuf) : List Nat := b.hdr :: (if b.isStatic then [] else b.dataId.toList)
 end ABuf
 
 def ownedBufOpt : Option ABuf → List Nat
